@@ -1,4 +1,5 @@
 import CssVerif.Model.Globals
+import CssVerif.Model.GlobalsMemo
 open CssVerif.Proto CssVerif.GProd CssVerif.Globals
 
 /-! line protocol of the C12 model driver (see tools/harness/c12.py)
@@ -256,7 +257,106 @@ def runHist (env : Env) (fuel : Nat) : List Step → G → List String
       if r.g.parsers.isEmpty then "-" else ",".intercalate (r.g.parsers.map fun p => b01 p.raising ++ b01 p.validate)]
     line :: runHist env fuel ss r.g
 
+
+/-! `memo <fuel> <MACROS>;<PRODUCTIONS>;<dx> <op> <op> …` — a history on the tokenizer cache (`Model/GlobalsMemo.lean`)
+  strings  dotted hex code points (`-` = empty);  items `name=text,name=text`, `E` = empty, `N` = `None`
+  op       `set` (settings.set) | `new:<macros>:<productions>` (Tokenizer(macros, productions))
+reply: one observation per op, joined by ` | `:
+  `ok <hit 0|1> <entries in the cache> <name=pattern,…> <commentmatcher> <urimatcher>` |
+  `err <KeyError:name|IndexError|diverges> <entries>` | `set <entries>`; `baddict` for a dict with a repeated key
+
+`lazy <compiles 0|1> <flags> <compiled flags> <groups> <n>` — n method calls on one LazyRegex; reply per call
+  `<ok|err>:<matcher set 0|1>:<flags>:<groups|N>` -/
+
+
+def parseItem (w : String) : Option (CssVerif.Memo.Str × CssVerif.Memo.Str) :=
+  match splitOnChar w '=' with
+  | [a, b] => match decCps a, decCps b with
+    | some a, some b => some (a, b)
+    | _, _ => none
+  | _ => none
+
+def parseItems (w : String) : Option (Option CssVerif.Memo.Items) :=
+  if w == "N" then some none
+  else if w == "E" then some (some [])
+  else (parseList parseItem ',' w).map some
+
+def showItems (l : CssVerif.Memo.Items) : String :=
+  if l.isEmpty then "E" else ",".intercalate (l.map fun kv => encCps kv.1 ++ "=" ++ encCps kv.2)
+
+def mkDict (l : CssVerif.Memo.Items) : Option CssVerif.Memo.PyDict :=
+  if h : (l.map (·.1)).Nodup then some ⟨l, h⟩ else none
+
+inductive MemoReq
+  | set
+  | new (m : CssVerif.Memo.MacrosArg) (p : CssVerif.Memo.ProdsArg)
+  | badDict
+
+def parseMemoOp (w : String) : Option MemoReq :=
+  if w == "set" then some .set else
+  match splitOnChar w ':' with
+  | ["new", m, p] =>
+    match parseItems m, parseItems p with
+    | some none, some p => some (.new none p)
+    | some (some l), some p => match mkDict l with
+      | some d => some (.new (some d) p)
+      | none => some .badDict
+    | _, _ => none
+  | _ => none
+
+def showCErr : CssVerif.Memo.CErr → String
+  | .keyError n => "KeyError:" ++ encCps n
+  | .indexError => "IndexError"
+  | .diverges => "diverges"
+
+def runMemo (fuel : Nat) : List MemoReq → CssVerif.Memo.TkState CssVerif.Memo.Tables → List String
+  | [], _ => []
+  | .badDict :: t, s => "baddict" :: runMemo fuel t s
+  | .set :: t, s =>
+    let s' := CssVerif.Memo.settingsSet s
+    ("set " ++ toString s'.cache.length) :: runMemo fuel t s'
+  | .new m p :: t, s =>
+    let r := CssVerif.Memo.newTokenizer (CssVerif.Memo.pyCompile fuel) s m p
+    let line := match r.1 with
+      | .ok (tb, hit) => " ".intercalate ["ok", b01 hit, toString r.2.cache.length, showItems tb.tokenmatches,
+                                           encCps tb.comment, encCps tb.uri]
+      | .error e => "err " ++ showCErr e ++ " " ++ toString r.2.cache.length
+    line :: runMemo fuel t r.2
+
+def runLazy (re : CssVerif.Memo.ReLib Unit (Nat × Nat)) : Nat → CssVerif.Memo.Lazy (Nat × Nat) → List String
+  | 0, _ => []
+  | n + 1, l =>
+    let r := l.query re (fun _ (_ : Unit) => ()) ()
+    let res := match r.1 with
+      | .ok _ => "ok"
+      | .error (.compile _) => "err"
+      | .error .noneAttr => "none-attr"
+    (":".intercalate [res, b01 r.2.matcher.isSome, toString r.2.flags,
+                       match r.2.groups with | some g => toString g | none => "N"]) :: runLazy re n r.2
+
+def handleMemo (line : String) : Option String :=
+  match words line with
+  | "memo" :: fuel :: glob :: ops =>
+    match fuel.toNat?, splitOnChar glob ';' with
+    | some fuel, [ms, ps, dx] =>
+      match parseItems ms, parseItems ps, parseItem dx, parseList parseMemoOp ' ' (" ".intercalate ops) with
+      | some (some ms), some (some ps), some dx, some reqs =>
+        some (" | ".intercalate (runMemo fuel reqs (CssVerif.Memo.TkState.cold { macros := ms, prods := ps, dx := dx })))
+      | _, _, _, _ => some "bad-op"
+    | _, _ => some "bad-op"
+  | ["lazy", okc, flags, cflags, groups, n] =>
+    match flags.toNat?, cflags.toNat?, groups.toNat?, n.toNat? with
+    | some f, some cf, some g, some n =>
+      let re : CssVerif.Memo.ReLib Unit (Nat × Nat) :=
+        { compile := fun _ _ => if okc == "1" then .ok (cf, g) else .error (), flagsOf := (·.1), groupsOf := (·.2) }
+      some (" ".intercalate (runLazy re n (CssVerif.Memo.Lazy.new [] f)))
+    | _, _, _, _ => some "bad-op"
+  | _ => none
+
 def handle (line : String) : String :=
+  match handleMemo line with
+  | some r => r
+  | none =>
   match words line with
   | ["pp", mode, saved, pushed, srck, toks, k, fuel, env] =>
     match parseToks saved, parseToks pushed, parseToks toks, k.toNat?, fuel.toNat?, parseList parseSpec '|' env with
